@@ -668,7 +668,7 @@ class Interp:
                 except Fallthrough: pass
             cands = self.call_cache.get(callee)
             if cands is None:
-                name = re.sub(r'::<[^()]*>$', '', callee)
+                name = strip_generic_suffix(callee)
                 cands = self.find_bodies(name)
                 if not cands: cands = self.find_impl(callee)
                 self.call_cache[callee] = cands
@@ -794,6 +794,19 @@ class Interp:
             on_path(self, outcome)
         stats['left'] = len(work)
         return stats
+
+def strip_generic_suffix(name):
+    """`path::f::<A, (B, C)>` -> `path::f`"""
+    if not name.endswith('>'): return name
+    depth = 0
+    for q in range(len(name) - 1, -1, -1):
+        c = name[q]
+        if c == '>' and name[q - 1] not in '-=': depth += 1
+        elif c == '<':
+            depth -= 1
+            if depth == 0:
+                return name[:q - 2] if name[q - 2:q] == '::' else name
+    return name
 
 class VecSlot:
     """cell-like alias of one slot of a vec model"""
